@@ -243,7 +243,7 @@ pub fn run(mut chk: Check) -> ! {
         let inputs: Vec<Vec<u64>> = (0..PROBES.len() as u64).map(|i| vec![i]).collect();
         chk.explicit("probe", &inputs, case_probe);
     }
-    let n = chk.scale(20_000, 1_000_000);
+    let n = chk.scale(200_000, 1_500_000);
     chk.campaign(CampaignCfg::new("pcf", n), case_pcf);
     chk.campaign(CampaignCfg::new("pcf_full", n / 2), case_pcf_full);
     chk.campaign(CampaignCfg::new("hash", n).len(0, 700), case_hash);
